@@ -371,6 +371,70 @@ func importLeafRules(first []tRule) []tRule {
 	return rs
 }
 
+// leafCensus: the distinct identifiers and basic literals of a target, in order of first occurrence (the blank identifier and
+// literals that a raw-string pattern cannot spell are left out).
+func leafCensus(f *ast.File) []string {
+	seen := map[string]bool{}
+	var out []string
+	add := func(s string) {
+		if s != "" && s != "_" && !strings.Contains(s, "`") && !seen[s] {
+			seen[s] = true
+			out = append(out, s)
+		}
+	}
+	ast.Inspect(f, func(n ast.Node) bool {
+		switch n := n.(type) {
+		case *ast.Ident:
+			add(n.Name)
+		case *ast.BasicLit:
+			add(n.Value)
+		}
+		return true
+	})
+	return out
+}
+
+// leafCensusSets: for a target, rule sets that consist of ONE rule per distinct identifier / literal of the file -- every leaf of
+// the file, wherever it stands (package clause, imports, labels, field names, tags, type parameters, selectors, keys, ...), is
+// matched by exactly the rule that spells it, so a walk that leaves out ANY subtree loses reports -- alone, and behind
+// declaration-rooted rules (which nodes a rule is offered must not depend on the other rules). Leaves whose rule does not load
+// on its own are left out.
+func leafCensusSets(theme string, f *ast.File) (sets []struct {
+	Theme string
+	Rules []tRule
+}) {
+	var leaves []tRule
+	for i, l := range leafCensus(f) {
+		if _, err := compilePat(l); err != nil {
+			continue
+		}
+		rules := "package gorules\n\nimport \"github.com/quasilyte/go-ruleguard/dsl\"\n\nfunc one(m dsl.Matcher) {\n\tm.Match(`" + l + "`).Report(`one`)\n}\n"
+		ok := func() (ok bool) {
+			defer func() {
+				if recover() != nil {
+					ok = false
+				}
+			}()
+			_, err := hutil.LoadEngine(token.NewFileSet(), map[string]string{"r.go": rules}, []string{"r.go"})
+			return err == nil
+		}()
+		if ok {
+			leaves = append(leaves, tRule{l, "", fmt.Sprintf("c%d", i), nil})
+		}
+	}
+	decls := []tRule{{"import $_", "", "imp", nil}, {"var $_ = $_", "", "var", nil}, {"type $_ $_", "", "typ", nil}, {"func $_($*_) $*_ { $*_ }", "", "fn", nil},
+		{"const $_ = $_", "", "cst", nil}}
+	sets = append(sets, struct {
+		Theme string
+		Rules []tRule
+	}{theme, leaves})
+	sets = append(sets, struct {
+		Theme string
+		Rules []tRule
+	}{theme, append(append([]tRule{}, decls...), leaves...)})
+	return sets
+}
+
 // importsSink: every form of import declaration (single, grouped, empty; named, dot and blank imports; one path twice), and the
 // same identifiers / literals outside of them.
 const importsSink = `// Package imps doc.
@@ -768,6 +832,14 @@ func runRulesMode(enc *json.Encoder, rng *rand.Rand, nsets, size int, tmp string
 	if impTarget.name != "imps/target.go" {
 		return
 	}
+	// leaf-census sets of the kitchen sink and of the imports target (theme "leaves:<target index>")
+	nStatic := len(targetedSets)
+	defer func() { targetedSets = targetedSets[:nStatic] }()
+	for _, ti := range []int{0, len(targets) - 1} {
+		for _, ts := range leafCensusSets(fmt.Sprintf("leaves:%d", ti), targets[ti].t.File) {
+			targetedSets = append(targetedSets, ts)
+		}
+	}
 	bundles := map[string][]bundleFile{}
 	for _, pkg := range bundlePkgs {
 		bfs, err := readBundle(pkg)
@@ -808,7 +880,11 @@ func runRulesMode(enc *json.Encoder, rng *rand.Rand, nsets, size int, tmp string
 			fp.loads[li].Err = msg
 		}
 		tg := targets[si%len(targets)]
-		if theme == "imports" {
+		if strings.HasPrefix(theme, "leaves:") {
+			var ti int
+			fmt.Sscanf(theme, "leaves:%d", &ti)
+			tg = targets[ti]
+		} else if theme == "imports" {
 			tg = impTarget
 		} else if strings.Contains(theme, "pkgs") {
 			tg = pkgTargets[rng.Intn(len(pkgTargets))]
